@@ -37,7 +37,26 @@ class BoomType(Boom, TypeError):
     pass
 
 
-BOOMS = (Boom, BoomRT, BoomLookup, BoomAttr, BoomType)
+def _library_families():
+    """Failures whose class is one of the library's own exception classes (a callback that
+    drives a second machine fails with exactly these): the engine must not mistake them for its
+    own signals."""
+    try:
+        from statemachine.exceptions import (InvalidDefinition, InvalidStateValue,
+                                             TransitionNotAllowed)
+    except ImportError:      # pragma: no cover
+        return ()
+
+    def mk(name, base):
+        def __init__(self, k):
+            Exception.__init__(self, k)
+            self.event = self.state = self.value = None
+        return type(name, (Boom, base), {"__init__": __init__})
+    return (mk("BoomTNA", TransitionNotAllowed), mk("BoomInvalidDefinition", InvalidDefinition),
+            mk("BoomInvalidStateValue", InvalidStateValue))
+
+
+BOOMS = (Boom, BoomRT, BoomLookup, BoomAttr, BoomType) + _library_families()
 
 
 def make_boom(k):
